@@ -2116,7 +2116,6 @@ func (b *Body) errEdgeReturnsScanErr(bb *ssa.BasicBlock) bool {
 	return ok
 }
 
-
 func scIsArith(op token.Token) bool {
 	switch op {
 	case token.OR, token.AND, token.XOR, token.AND_NOT, token.ADD, token.SUB, token.SHL, token.SHR:
@@ -2195,7 +2194,6 @@ func scCmpSetTbl(tbl *[256]int64, op token.Token, k int64, byteLeft bool) bset {
 	return s
 }
 
-
 // scanOpcodes: name -> value of the scanner's opcode constants, read from the
 // analysed package by the rule before the product runs (nil = not checked).
 var scanOpcodes map[string]int64
@@ -2237,7 +2235,6 @@ func refOpcode(s rstate, top byte, depth int, c byte, t rtrans) string {
 	}
 	return "scanContinue"
 }
-
 
 // straightToNextIteration: from block s the loop with header h starts its next iteration and
 // nothing else happens on the way: s is the header, or a chain of blocks that hold only the
